@@ -53,6 +53,7 @@ type Cell struct {
 	id   int
 	name string
 	typ  types.Type
+	key  ssa.Value // the Alloc / FreeVar this cell stands for (stable across runs)
 }
 
 type State struct {
